@@ -54,13 +54,20 @@ CallVerdict(P, c, ln, cu) ==
     [] c.c = "embed" ->
          IF c.off # cu[c.sec] THEN <<"R", "transcript", 0, "bytes of consecutive calls are not contiguous", "">>
          ELSE NoColumn(ln, TextVerdict(<<Wd(".", "data"), Ws(DataWords(P.a, c.ts), "data", "data directive")>> \o DataItems(c.b, 1, c.ts), ln.tk))
+    [] c.c = "elabel" ->        \* embedded label address:  .<data word> <label>
+         IF c.off # cu[c.sec] \/ Len(c.b) # c.ts THEN <<"R", "transcript", 0, "embedded label appended another number of bytes than its size", "">>
+         ELSE NoColumn(ln, TextVerdict(<<Wd(".", "data"), Ws(DataWords(P.a, c.ts), "data", "data directive")>> \o LabelItems(c.lb), ln.tk))
+    [] c.c = "edelta" ->        \* embedded label delta:  .<data word> (<label> - <base>)
+         IF c.off # cu[c.sec] \/ Len(c.b) # c.ts THEN <<"R", "transcript", 0, "embedded label delta appended another number of bytes than its size", "">>
+         ELSE NoColumn(ln, TextVerdict(<<Wd(".", "data"), Ws(DataWords(P.a, c.ts), "data", "data directive"), WdO("(", "data")>> \o LabelItems(c.lb) \o
+                                       <<Wd("-", "data")>> \o LabelItems(c.lb2) \o <<WdO(")", "data")>>, ln.tk))
     [] c.c = "comment" -> IF ln.tk = c.ctk /\ ln.hx = <<>> THEN <<"ok">> ELSE <<"R", "comment", 0, c.s, ln.tx>>
     [] c.c = "section" ->
          NoColumn(ln, TextVerdict(<<Wd(".", "section"), Wd("section", "section")>> \o ItemsOfTokens(c.ntk, 1) \o
                                   <<WdO("{", "section"), NmO(IntToLimbs(c.sid), "section"), WdO("}", "section")>>, ln.tk))
     [] OTHER -> <<"R", "transcript", 0, "unknown call", c.c>>
 
-Appends(c) == c.c \in {"inst", "align", "embed"}
+Appends(c) == c.c \in {"inst", "align", "embed", "elabel", "edelta"}
 
 Silent(c) == c.c = "align" /\ Len(c.b) = 0 /\ c.l1 = c.l0         \* nothing appended, nothing logged
 StepVerdict(P, kk, jj, cu) ==
